@@ -163,6 +163,55 @@ def check(run, F, tier):
                              site="%s:%s" % (feed["file"], o.site[1]))
     for name, f, tag in sorted(local_entries, key=lambda x: x[0]):
         handle(r1l, name, f, tag)
+
+    # ---- supporting structures: everything the connection layer reaches outside core.rs that the handler exploration
+    # treats as an opaque call (identifier allocator, id manager, store, alias tables, payload, cursor) is analysed on its
+    # own: explicit asserts / panics (preconditions the callers must establish), unwraps, indexing, and arithmetic on the
+    # generic integer type (a trait call in MIR: overflow panics in debug builds, wraps in release builds).
+    r1s = run.rule("C05-R1S", "no undischarged panic site in the supporting structures reachable from the connection layer", floor=15)
+    SUP = ("src/mqtt/common/value_allocator.rs", "src/mqtt/connection/packet_id_manager.rs", "src/mqtt/connection/store.rs",
+           "src/mqtt/packet/topic_alias_send.rs", "src/mqtt/packet/topic_alias_recv.rs", "src/mqtt/common/arc_payload.rs",
+           "src/mqtt/common/cursor.rs")
+    seen_f, work = set(), [f["path"] for f in ms.values()]
+    while work:
+        pth = work.pop()
+        if pth in seen_f or pth not in F.fns:
+            continue
+        seen_f.add(pth)
+        g = F.fns[pth]
+        for b in g["blocks"]:
+            t = b["term"]
+            if t["k"] == "call" and "fn" in t["func"].get("const", {}):
+                fi = t["func"]["const"]["fn"]
+                work.append((fi.get("res") or {}).get("path", fi["path"]))
+            for s_ in b["stmts"]:
+                if s_["k"] == "assign" and s_["rv"]["k"] == "agg" and "closure" in s_["rv"]:
+                    work.append(s_["rv"]["closure"])
+    nsup = 0
+    for pth in sorted(seen_f):
+        g = F.fns[pth]
+        if g["file"] not in SUP or g.get("kind") == "Closure":
+            continue
+        nsup += 1
+        try:
+            obs, st = panics.collect(F, pth, inline_pred=lambda ex, callee, info: callee.get("kind") == "Closure", facts_hook=C04.consumed_facts)
+        except explore.ExploreError as e:
+            r1s.violation(panics.short_fn(pth) + "|explore", "cannot explore %s: %s" % (pth, e))
+            continue
+        if not obs:
+            r1s.ok(panics.short_fn(pth), "no panic site")
+        for o in obs:
+            if o.status == "discharged":
+                mech += 1
+                r1s.ok(o.key, o.why)
+            elif o.key in ledger:
+                aud += 1
+                used.add(o.key)
+                r1s.ok(o.key, "audited: " + ledger[o.key]["reason"])
+            else:
+                r1s.violation(o.key, "%s: %s %s (%s) at line %s - %s" % (panics.short_fn(pth), o.kind, o.desc, o.status, o.site[1], o.why),
+                              conn.path_summary(o.path), site="%s:%s" % (g["file"], o.site[1]))
+    run.cov_extra["support_functions"] = nsup
     run.cov_extra["mechanical"] = mech
     run.cov_extra["audited"] = aud
     stale = sorted(set(ledger) - used)
